@@ -6,7 +6,10 @@ Tie:   for generated container documents: the document itself (must parse to its
        removed, every separator blanked -- all of the latter must give Undefined.
        D92: texts whose strings hold a LONE high surrogate escape followed by 0..8 ordinary units, with later
        strings that begin with ] } , : or an escaped quote: the text and ALL its proper prefixes must give
-       Undefined (before the repair a proper prefix such as ["\\uD800abcde","] was accepted)."""
+       Undefined (before the repair a proper prefix such as ["\\uD800abcde","] was accepted).
+       D93: texts with a backslash-u escape of 0..3 hexadecimal digits followed by a non-hex unit / the closing quote /
+       the end of the text, in either half of a pair: the text and ALL its proper prefixes must give Undefined
+       (before the repair ["\\u1","abcd"] and ["\\u00zz"] were accepted)."""
 from vlib import fmt_list
 from props import jsoncommon as jc
 
@@ -28,6 +31,9 @@ def gen(rng, tier, boost):
     lone = jc.lone_surrogate_cases(rng, (lambda r: [r.randrange(4)]) if tier == "quick" else (lambda r: range(4)), "X", full=(tier != "quick"))
     cases.extend(lone)
     dist["lone_surrogate"] = len(lone)
+    short = jc.short_hex_cases(rng, (lambda r: [r.randrange(4)]) if tier == "quick" else (lambda r: range(4)), "X", full=(tier != "quick"))
+    cases.extend(short)
+    dist["short_hex"] = len(short)
     nh = (1500 if tier == "quick" else 30000) * boost
     for _ in range(nh):
         cases.append(jc.h_case(rng, rng.randrange(4)))
@@ -37,8 +43,8 @@ def gen(rng, tier, boost):
 
 def check(tier):
     return jc.run_check(PROP, tier, gen, "Properties_C07.v",
-                        "a damaged document (proper prefix, trailing non-whitespace unit, closing bracket swapped/removed, separator blanked) gives Undefined; the intact document gives its value; a text with an unpaired high surrogate escape and every proper prefix of it give Undefined (D92)",
-                        "generated container documents (<= 200 units, nesting <= 8) with all their proper prefixes, 2x20 one-unit suffixes, bracket and separator damage; texts with a lone high surrogate escape (0..8 ordinary units behind it, later strings beginning with ] } , : or an escaped quote) with all their prefixes; four widths; non-trivial = distinct texts")
+                        "a damaged document (proper prefix, trailing non-whitespace unit, closing bracket swapped/removed, separator blanked) gives Undefined; the intact document gives its value; a text with an unpaired high surrogate escape and every proper prefix of it give Undefined (D92); likewise a text with a backslash-u escape of fewer than four hexadecimal digits (D93)",
+                        "generated container documents (<= 200 units, nesting <= 8) with all their proper prefixes, 2x20 one-unit suffixes, bracket and separator damage; texts with a lone high surrogate escape (0..8 ordinary units behind it, later strings beginning with ] } , : or an escaped quote) with all their prefixes; texts with a backslash-u escape of 0..3 hexadecimal digits (first escape and second half of a pair) with all their prefixes; four widths; non-trivial = distinct texts")
 
 
 def replay(path):
